@@ -99,14 +99,19 @@ func (s *Service) Init(ctx context.Context) error {
 	// contains pipelineIDs of all the pipelines in all the configuration files, either successfully provisioned or not.
 	var allPls []string
 
-	// delete duplicate pipelines (if any)
+	// delete duplicate pipelines (if any). The indexes returned by
+	// findDuplicateIDs refer to the original configs slice, so they are
+	// collected and deleted in one go: deleting per duplicated ID shifts the
+	// slice and makes the indexes of the next duplicated ID stale.
+	var allDuplicateIndexes []int
 	for duplicateID, duplicateIndexes := range s.findDuplicateIDs(configs) {
 		errs = append(errs, cerrors.Errorf("%d pipelines with ID %q will be skipped: %w", len(duplicateIndexes), duplicateID, ErrDuplicatedPipelineID))
-		configs = s.deleteIndexes(configs, duplicateIndexes)
+		allDuplicateIndexes = append(allDuplicateIndexes, duplicateIndexes...)
 
 		// duplicated IDs should still count towards all encountered pipeline IDs
 		allPls = append(allPls, duplicateID)
 	}
+	configs = s.deleteIndexes(configs, allDuplicateIndexes)
 
 	// remove pipelines with duplicate IDs from API pipelines
 	var apiProvisioned []int
